@@ -41,14 +41,14 @@ type Universe struct {
 	Dir  string // directory the load ran in
 	GOOS string
 
-	Initial []*packages.Package
-	Pkgs    map[string]*packages.Package // repo packages by import path
-	Prog    *ssa.Program
-	SSA     map[string]*ssa.Package
-	Fset    *token.FileSet
-	Inlined []InlineReport // helper calls expanded before analysis
-	Renamed []string       // functions recognised as renamed (old -> new)
-	Expanded map[*ssa.Function]bool // helpers all of whose uses were expanded: not analysed on their own
+	Initial          []*packages.Package
+	Pkgs             map[string]*packages.Package // repo packages by import path
+	Prog             *ssa.Program
+	SSA              map[string]*ssa.Package
+	Fset             *token.FileSet
+	Inlined          []InlineReport         // helper calls expanded before analysis
+	Renamed          []string               // functions recognised as renamed (old -> new)
+	Expanded         map[*ssa.Function]bool // helpers all of whose uses were expanded: not analysed on their own
 	ExpandedWrappers map[*ssa.Function]bool // bound-method wrappers into which an unknown method was expanded
 
 	repoFuncs  []*ssa.Function
@@ -308,7 +308,30 @@ func (u *Universe) renameParams() {
 				names = kf.Params
 			}
 		} else if Known.Closures != nil {
-			names = Known.Closures[u.ClosureKey(fn)]
+			key := u.ClosureKey(fn)
+			names = Known.Closures[key]
+			if names == nil {
+				// a closure that moved, with its code, into a helper the rules do not
+				// know: take the names of the known closure(s) of the same package and
+				// signature when they agree
+				if i := strings.Index(key, "$"); i >= 0 {
+					pkg, _, _ := strings.Cut(key, "::")
+					var cand []string
+					ok := true
+					for k, v := range Known.Closures {
+						if j := strings.Index(k, "$"); j < 0 || k[j:] != key[i:] || !strings.HasPrefix(k, pkg+"::") {
+							continue
+						}
+						if cand != nil && strings.Join(cand, ",") != strings.Join(v, ",") {
+							ok = false
+						}
+						cand = v
+					}
+					if ok {
+						names = cand
+					}
+				}
+			}
 		}
 		if len(names) != len(fn.Params) {
 			continue
@@ -431,6 +454,9 @@ func (u *Universe) FuncsUnder(prefix string) []*ssa.Function {
 
 // ClosureSites returns the MakeClosure instructions that create fn.
 func (u *Universe) ClosureSites(fn *ssa.Function) []*ssa.MakeClosure { return u.closureOf[fn] }
+
+// TopLevel is the outermost enclosing function of fn.
+func TopLevel(fn *ssa.Function) *ssa.Function { return topLevel(fn) }
 
 func topLevel(fn *ssa.Function) *ssa.Function {
 	for fn.Parent() != nil {
